@@ -18,7 +18,7 @@ from anytree import Resolver, ResolverError
 
 from . import invariants
 from .struct import Result, Violation, stable_hash
-from .world import HNode, OpGuard, Watchdog, World
+from .world import HNode, HNodeBag, HNodeNo, HNodeUnhash, OpGuard, Watchdog, World
 
 KNOWN_OPEN = set()
 
@@ -45,6 +45,8 @@ class HNodeEqName(HNode):
 
 
 SEP_CLASSES = {"/": HNode, ";": HNodeSemi, "::": HNodeDC, "/=": HNodeEqName}
+# user classes on the default separator: container-like (a leaf is falsy), always falsy, unhashable
+USER_CLASSES = {"bag": HNodeBag, "no": HNodeNo, "unhash": HNodeUnhash}
 
 ASCII_NAMES = (
     "a", "A", "b", "aB", "Ab", "ab", "sub0", "sub1", "Sub0", "a.b", "a+b", "a[b]", "(a)", "^a", "a$", "a|b",
@@ -222,6 +224,7 @@ def gen_cfg(rng, prop, tier):
         "poolsize": rng.choice((2, 3, 4, 6, 8, 24)),
         "L": rng.randint(5, 40),
         "mut": rng.choice((0.0, 0.1, 0.25)),
+        "ucls": rng.choice(sorted(USER_CLASSES)) if sep == "/" and rng.random() < 0.25 else None,
     }
 
 
@@ -322,7 +325,7 @@ def sibling_unique(snap, names, ignorecase):
 def run(cfg, ops=None, rng=None):
     prop = "C08"
     res = Result()
-    cls = SEP_CLASSES[cfg["sep"]]
+    cls = USER_CLASSES[cfg["ucls"]] if cfg.get("ucls") else SEP_CLASSES[cfg["sep"]]
     sep = cls.separator
     pathattr = cfg["pathattr"]
     world = World()
